@@ -143,9 +143,42 @@ cocls::async<void> chain(int k, int depth, vs::Counted arg) {
     if (k < depth) co_await chain(k + 1, depth, vs::Counted(arg.value() + 1));
     else if (arg.value() != depth) dsim::fail("C04.frame_corrupt", "argument chain damaged");
 }
+
+// ---- several parties race for one promise; start(promise) must start its coroutine if and only if it won the claim
+cocls::async<long> racer_body(int id, vs::Counted arg) { dsim::cell_add(BODY + id, 1); co_return 100 + id + 0 * arg.value(); }
+void race_mode() {
+    int n = 2 + dsim::choose(2); int kind[3];
+    for (int i = 0; i < n; i++) kind[i] = dsim::choose(3);       // 0 start(promise), 1 promise(value), 2 move the promise away and drop it
+    kind[0] = 0;
+    dsim::plan_note("race for one promise:"); for (int i = 0; i < n; i++) dsim::plan_note(" %d", kind[i]);
+    {
+        cocls::future<long> f; cocls::promise<long> p = f.get_promise();
+        std::vector<std::thread> th;
+        for (int i = 0; i < n; i++) th.emplace_back([&p, i, k = kind[i]] {
+            bool won = false;
+            if (k == 0) { auto co = racer_body(i, vs::Counted(i)); won = co.start(p); }
+            else if (k == 1) won = p(1000L + i);
+            else { cocls::promise<long> q(std::move(p)); won = (bool)q; }
+            dsim::cell_set(DELIVERED + i, won ? 1 : 0);
+        });
+        for (auto &t : th) t.join();
+        int winners = 0, w = -1;
+        for (int i = 0; i < n; i++) {
+            long won = dsim::cell_get(DELIVERED + i), ran = dsim::cell_get(BODY + i);
+            if (won) { winners++; w = i; }
+            if (kind[i] == 0 && ran != won) dsim::fail(won ? "C04.not_run" : "C04.unstarted_ran", "start(promise) of claimant %d returned %ld but its body executed %ld times", i, won, ran);
+        }
+        if (winners != 1) dsim::fail("C04.start_promise", "%d of %d parties racing for one promise report success", winners, n);
+        if (!f.ready()) dsim::fail("C04.delivery", "future not resolved after the race");
+        if (kind[w] == 2) { if (f.has_value()) dsim::fail("C04.wrong_result", "promise was dropped by the winner but the future has a value"); }
+        else { long v = f.value(); long want = kind[w] == 0 ? 100 + w : 1000 + w; if (v != want) dsim::fail("C04.wrong_result", "winner %d supplies %ld, future holds %ld", w, want, v); }
+    }
+    vs::Counted::expect_balanced("C04.instances");
+}
 }
 
 void dsim_scenario() {
+    if (dsim::choose(8) == 6) { race_mode(); return; }
     if (dsim::choose(8) == 7) {      // chain shape: nesting depth of co_await
         int depth = 1 + dsim::choose(dsim::tier() ? 200 : 80);
         dsim::plan_note("chain depth=%d", depth);
